@@ -374,6 +374,16 @@ func runC06(tier string, seed uint64) {
 					if rng.Intn(20) == 0 {
 						body = []byte{}
 					}
+					if pn >= 1 && pn <= 10000 && rng.Intn(6) == 0 {
+						// a re-upload (or first upload) of the part that the server has to refuse: the digest of
+						// other bytes, or more bytes than declared; the part held before stays the "most recent"
+						if rng.Bool() {
+							s.PartRaw(b, u.key, u.id, strconv.Itoa(pn), [][2]string{{"Content-Length", strconv.Itoa(len(body))}, {"Content-MD5", b64md5(append([]byte("other"), body...))}}, body, -1)
+						} else {
+							s.PartRaw(b, u.key, u.id, strconv.Itoa(pn), [][2]string{{"Content-Length", strconv.Itoa(len(body))}}, append(append([]byte{}, body...), []byte("tail")...), -1)
+						}
+						continue
+					}
 					if et := s.UploadPart(b, u.key, u.id, pn, body); et != "" {
 						u.etags[pn] = et
 					}
